@@ -294,7 +294,8 @@ class _Expander(ast.NodeTransformer):
                 pre.append(ast.Assign(targets=[ast.Name(id=prefix + fld.lstrip("_"), ctx=ast.Store())], value=val))
         rn = _Rename(direct)
         enter = [rn.visit(sf.visit(copy.deepcopy(st))) for st in sh["enter_body"]]
-        res = rn.visit(sf.visit(copy.deepcopy(sh["enter_result"]))) if sh["enter_result"] is not None else None
+        # (`return self` of an __enter__ whose result the `with` does not bind is of no consequence)
+        res = rn.visit(sf.visit(copy.deepcopy(sh["enter_result"]))) if sh["enter_result"] is not None and target is not None else None
         exc_part = [rn.visit(sf.visit(copy.deepcopy(st))) for st in sh["exc_part"]]
         always = [rn.visit(sf.visit(copy.deepcopy(st))) for st in sh["always"]]
         if sf.bad:
